@@ -121,9 +121,18 @@ func (r *Report) Finish(known *KnownFile, evidencePath, replayDir string, starte
 		rules = append(rules, rule)
 	}
 	sort.Strings(rules)
+	// The guard is against a rule that silently matches (almost) nothing, not against a
+	// code base that legitimately shrinks a little: it fires below 60% of the hand-confirmed count.
+	need := func(rule string) int {
+		m := r.MinCount[rule]
+		if m <= 1 {
+			return m
+		}
+		return (m*3 + 4) / 5
+	}
 	for _, rule := range rules {
-		if count[rule] < r.MinCount[rule] {
-			r.Fail(rule, "vacuity", "-", fmt.Sprintf("VACUOUS: rule matched %d instances, hand-confirmed minimum is %d (anchor moved or rule no longer recognises the idiom)", count[rule], r.MinCount[rule]))
+		if count[rule] < need(rule) {
+			r.Fail(rule, "vacuity", "-", fmt.Sprintf("VACUOUS: rule matched %d instances, hand-confirmed count is %d, guard threshold %d (anchor moved or rule no longer recognises the idiom)", count[rule], r.MinCount[rule], need(rule)))
 		}
 	}
 	sort.SliceStable(r.Obls, func(i, j int) bool { return r.Obls[i].Key < r.Obls[j].Key })
